@@ -8,7 +8,7 @@ import ECAgent.Environments as Envs
 from ECAgent.Core import Agent, AgentNotFoundError, DuplicateAgentError, Model
 from ECAgent.Environments import DiscreteWorld, GridWorld, LineWorld, SpaceWorld, PositionComponent
 from vf.engine import Violation, InvalidCase
-from vf.fixtures import CompA, CompB, CompC, check, sized_lists, wone_of
+from vf.fixtures import CompA, CompB, CompC, CompF, check, sized_lists, wone_of
 
 PROPERTY = "C04"
 LEVEL = "fault_enumeration"
@@ -28,7 +28,7 @@ ASSUMPTIONS = ["agents' component sets are not modified while resident (that is 
                "Exception itself, exception classes defined in an ECAgent module, IndexError, ValueError",
                "duplicate id AND out of bounds: either documented error"]
 
-TYPES = [CompA, CompB, CompC]
+TYPES = [CompA, CompB, CompF]     # CompF instances are falsy
 ECAGENT_EXC = tuple(c for mod in (Core, Envs) for _, c in inspect.getmembers(mod, inspect.isclass)
                     if issubclass(c, Exception) and c.__module__.startswith("ECAgent"))
 
